@@ -329,6 +329,47 @@ class Gen:
                 f = [rng.choice([1, 2, -1, 0.5, 3]) for _ in range(d)]
                 s = self.add_recipe("scaling", [f])
                 self.T[s] = {"m": np.diag(f + [1.0]), "fshape": ()}
+        # structured families that random matrices never hit: complex unitary (phases, i*sin blocks, DFT), real
+        # orthogonal (Householder), symmetric positive definite, nilpotent + identity
+        if rng.random() < 0.35:
+            fam = rng.choice(["phases", "isin", "dft", "householder", "spd", "unipotent", "chouseholder"])
+            mc = None
+            if fam == "phases":
+                ph = [rng.choice([1, 1j, -1, -1j]) for _ in range(n)]
+                pm = list(range(n))
+                rng.shuffle(pm)
+                mc = np.zeros((n, n), complex)
+                for i_ in range(n):
+                    mc[i_, pm[i_]] = ph[i_]
+            elif fam == "isin" and n >= 2:
+                a_ = rng.choice([0.5, 1.0, 2.0])
+                mc = np.eye(n, dtype=complex)
+                mc[0, 0] = mc[1, 1] = math.cos(a_)
+                mc[0, 1] = mc[1, 0] = 1j * math.sin(a_)
+                mc[-1, -1] = rng.choice([1, 1j])
+            elif fam == "dft":
+                w = np.exp(-2j * np.pi / n)
+                mc = np.array([[w ** (i_ * j_) for j_ in range(n)] for i_ in range(n)]) / math.sqrt(n)
+            elif fam in ("householder", "chouseholder"):
+                v_ = np.array([rng.randint(-2, 2) for _ in range(n)], float)
+                if fam == "chouseholder":
+                    v_ = v_ + 1j * np.array([rng.randint(-2, 2) for _ in range(n)], float)
+                if np.linalg.norm(v_) > 0:
+                    mc = np.eye(n, dtype=complex) - 2 * np.outer(v_, v_.conj()) / np.vdot(v_, v_)
+            elif fam == "spd":
+                b_ = np.array(self.inv_matrix(n), float)
+                mc = (b_ @ b_.T).astype(complex)
+            elif fam == "unipotent":
+                mc = np.eye(n, dtype=complex)
+                for i_ in range(n - 1):
+                    mc[i_, i_ + 1] = rng.randint(1, 2)
+            if mc is not None and cond_ok(mc):
+                if np.all(mc.imag == 0):
+                    s = self.add_recipe("transf", [mc.real.tolist()], {"dt": "f"})
+                    self.T[s] = {"m": mc.real.copy(), "fshape": ()}
+                else:
+                    s = self.add_recipe("ctransf", [mc.real.tolist(), mc.imag.tolist()])
+                    self.T[s] = {"m": mc, "fshape": ()}
         # complex transformations (CP^n): a single one and, sometimes, a large collection
         if rng.random() < 0.25:
             for _ in range(50):
